@@ -9,6 +9,7 @@ from ..core import case_nprng
 from ..drivers import index as drv
 from ..oracles import index as oidx
 
+PIGGY = True  # thorough tier also runs the repository tests / howtos / examples under these monitors
 LEVEL = "exploration"
 BUDGET = {"quick": 50, "thorough": 300}
 SHARDS = {"quick": 1, "thorough": 16}
